@@ -102,6 +102,28 @@ class Mix(Scenario):
         st = w.objs['st'] = {i.tag: {} for i in self.inters}  # per-interaction runtime objects
 
         def mk_beh(side):
+            def suspended(it, result):
+                """The handler coroutine itself is suspended (the engine awaits it inside its receiver task) until released."""
+                g = w.loop.create_future()
+                st[it.tag]['hgate'] = g
+                w.api(side, 'handler', 'suspended', it.tag)
+
+                async def slow():
+                    await g
+                    return result()
+
+                return slow()
+
+            def request_fire_and_forget(h, p):
+                it = by_tag.get(tag_of(p))
+                if it is not None and it.rr_mode == 'slow':
+                    return suspended(it, lambda: None)
+
+            def on_metadata_push(h, p):
+                it = by_tag.get(tag_of(p))
+                if it is not None and it.rr_mode == 'slow':
+                    return suspended(it, lambda: None)
+
             def request_response(h, p):
                 it = by_tag[tag_of(p)]
                 if it.rr_mode == 'now':
@@ -132,6 +154,8 @@ class Mix(Scenario):
                 it = by_tag[tag_of(p)]
                 if it.pub == 'raise':
                     raise AppRaise('handler raises ' + it.tag)
+                if it.rr_mode == 'slow':
+                    return suspended(it, lambda: self._publisher(w, it, side, 'd', it.down, it.ending))
                 return self._publisher(w, it, side, 'd', it.down, it.ending)
 
             def request_channel(h, p):
@@ -140,6 +164,8 @@ class Mix(Scenario):
                     raise AppRaise('handler raises ' + it.tag)
                 if it.pub == 'nonenone':
                     return None, None  # handler neither sends nor listens
+                if it.rr_mode == 'slow' and 'hgate' not in st[it.tag]:
+                    return suspended(it, lambda: request_channel(h, p))
                 pub = None if it.pub == 'none' else self._publisher(w, it, side, 'd', it.down, it.ending)
                 sub = RecSubscriber(w, side, 'rsub' + it.tag,
                                     request_on_subscribe=(MAXN if it.credit == 'max' else 1))
@@ -149,7 +175,8 @@ class Mix(Scenario):
                 return pub, sub
 
             return {'request_response': request_response, 'request_stream': request_stream,
-                    'request_channel': request_channel}
+                    'request_channel': request_channel, 'request_fire_and_forget': request_fire_and_forget,
+                    'on_metadata_push': on_metadata_push}
 
         conn, client, server = start_pair(w, self.flavour, c_beh=mk_beh('c0'), s_beh=mk_beh('s0'),
                                           client_kw=dict(fragment_size_bytes=self.fs, **self.client_kw),
@@ -290,12 +317,6 @@ class Mix(Scenario):
                             st['rrfut'].set_exception(RuntimeError('app error ' + it.tag))
 
                 w.add_actor('res' + it.tag, [Step('resolve', resolve, guard=lambda w: 'rrfut' in st)])
-            if it.rr_mode == 'slow':
-                def release(w):
-                    if not st['hgate'].done():
-                        st['hgate'].set_result(None)
-
-                w.add_actor('rel' + it.tag, [Step('release', release, guard=lambda w: 'hgate' in st)])
         elif it.kind == 'fnf':
             steps.append(Step('request', lambda w: st.__setitem__('fut', watch_future(w, side, 'fnf' + it.tag, sock.fire_and_forget(it.pay('q', 0))))))
         elif it.kind == 'push':
@@ -335,6 +356,12 @@ class Mix(Scenario):
 
                 steps.append(Step('cancel', cancel, guard=lambda w: sub.subscription is not None and len(sub.elements()) >= k))
         w.add_actor('req' + it.tag, steps)
+        if it.rr_mode == 'slow':
+            def release(w):
+                if not st['hgate'].done():
+                    st['hgate'].set_result(None)
+
+            w.add_actor('rel' + it.tag, [Step('release', release, guard=lambda w: 'hgate' in st)])
 
     # ------------------------------------------------------------------------------------------------------------
     def check(self, w):
